@@ -1,4 +1,5 @@
 import Proofs.ConfModel
+import Proofs.Blade
 
 /-! # C08 — conformal point embeddings satisfy the model identities
 
@@ -41,6 +42,13 @@ theorem model_satisfies_relations {N : Nat} {sig : Nat → ℚ} (n : Nat) (hN : 
     (v : Fin N → ℚ) (hv : ∀ i : Fin N, n ≤ i.val → v i = 0) :
     Rel (Cl.vec v : Cl N sig) (Cl.e n (by omega)) (Cl.e (n + 1) (by omega)) (Cl.Q N sig v) :=
   Cl.conformal_rel n hN h1 h2 v hv
+
+/-- the link between the abstract identities above and the coded tables: on vectors the inner-product table gives
+`2 (a | b) = ab + ba` and the outer-product table `2 (a ∧ b) = ab − ba` (any `n`, commutative ring, signature) -/
+theorem inner_is_half_anticommutator {R : Type} [CommRing R] (n : Nat) (sig : Nat → R) (a b : CMV n R) (ha : IsHom n 1 a) (hb : IsHom n 1 b) :
+    mmul n sig Model.imtCheck a b + mmul n sig Model.imtCheck a b = gmul n sig a b + gmul n sig b a := two_vector_inner n sig a b ha hb
+theorem wedge_is_half_commutator {R : Type} [CommRing R] (n : Nat) (sig : Nat → R) (a b : CMV n R) (ha : IsHom n 1 a) (hb : IsHom n 1 b) :
+    wedge n a b + wedge n a b = gmul n sig a b - gmul n sig b a := two_vector_wedge n sig a b ha hb
 
 /-- non-vacuity: Cl(1,0) conformalised (N = 3, sig = (1, 1, -1)), the base vector 3·e₀ -/
 example : ∃ q : ℚ, Rel (Cl.vec (fun i : Fin 3 => if i.val = 0 then (3 : ℚ) else 0) : Cl 3 (fun i => if i = 2 then (-1 : ℚ) else 1))
